@@ -46,7 +46,11 @@ func safeFind(c *mocrelay.EventCache, fs []*mocrelay.ReqFilter) (out []*mocrelay
 
 func drawTargetedKind5(t *rapid.T, cfg *gen.StoreCfg, present []*mocrelay.Event) *mocrelay.Event {
 	w := cfg.World
-	target := rapid.SampledFrom(present).Draw(t, "k5target")
+	cands := present
+	if len(w.Events) > 0 && rapid.IntRange(0, 2).Draw(t, "k5anytarget") == 0 {
+		cands = w.Events // also events that already left the store (second request for one target)
+	}
+	target := rapid.SampledFrom(cands).Draw(t, "k5target")
 	e := &mocrelay.Event{Kind: 5, Tags: []mocrelay.Tag{}}
 	if rapid.IntRange(0, 4).Draw(t, "k5own") != 0 {
 		e.Pubkey = target.Pubkey
@@ -65,6 +69,14 @@ func drawTargetedKind5(t *rapid.T, cfg *gen.StoreCfg, present []*mocrelay.Event)
 		tag = append(tag, "wss://r.example")
 	}
 	e.Tags = append(e.Tags, tag)
+	if rapid.IntRange(0, 3).Draw(t, "k5dup") == 0 {
+		// the same target named twice, in the other form
+		dup := mocrelay.Tag{tag[0], tag[1]}
+		if len(tag) == 2 {
+			dup = append(dup, "wss://other.example")
+		}
+		e.Tags = append(e.Tags, dup)
+	}
 	if rapid.IntRange(0, 3).Draw(t, "k5more") == 0 && len(w.Events) > 0 {
 		o := rapid.SampledFrom(w.Events).Draw(t, "k5other")
 		e.Tags = append(e.Tags, mocrelay.Tag{"e", o.ID})
